@@ -25,7 +25,7 @@ func b2s(b bool) string {
 
 func TestC01(t *testing.T) {
 	p := &world.Profile{Name: "reaper", Linger: true, DupTaints: true, MinGroups: 1, MaxGroups: 2, Fleet: 0, Auto: 1, Default: 1, MaxInit: 8, SmallGraces: true, Steps: 30, Stale: true,
-		Weights: with(baseWeights(), "advance", 9, "taintExt", 5, "clearNode", 3, "fault", 1, "annotate", 1, "gcNodes", 1, "forceBusy", 3, "schedule", 3, "launch", 3, "lateBind", 3, "staleWindow", 2, "gracefulDelete", 4, "raceOnWrite", 3, "oddTaintAtFloor", 1, "leftoverNode", 3)}
+		Weights: with(baseWeights(), "advance", 9, "taintExt", 5, "clearNode", 3, "fault", 1, "annotate", 1, "gcNodes", 1, "forceBusy", 3, "schedule", 3, "launch", 3, "lateBind", 3, "staleWindow", 2, "gracefulDelete", 4, "raceOnWrite", 3, "oddTaintAtFloor", 1, "leftoverNode", 3, "overMaxLateBind", 3)}
 	col := newCollector(t, "C01", "history of environment actions and scans over the real RunOnce; non-trivial = a scan that removed >=1 node while leaving >=1 tainted node in place, or that saw a tainted node within 1s of a grace boundary; distinct by (age class, empty, removed, restarted, taint value class)")
 	historyCheck(t, &historyOpts{prop: "C01", profile: p, col: col, classify: func(w *world.World, rec *world.ScanRecord) []string {
 		var keys []string
@@ -83,7 +83,7 @@ func TestC01(t *testing.T) {
 
 func TestC02(t *testing.T) {
 	p := &world.Profile{Name: "lock", MinGroups: 1, MaxGroups: 2, Fleet: 1, Auto: 1, MaxInit: 6, SmallGraces: true, Steps: 30,
-		Weights: with(baseWeights(), "advance", 10, "scan", 14, "targetUtil", 10, "cordon", 3, "taintExt", 4, "restart", 1, "fleetPlan", 1, "register", 3, "reconcile", 2, "asgEdit", 2, "drainAndForce", 2, "clearPods", 2, "zeroOut", 1, "idleBlip", 2, "refreshFails", 3, "resizeThenDescribeFails", 3)}
+		Weights: with(baseWeights(), "advance", 10, "scan", 14, "targetUtil", 10, "cordon", 3, "taintExt", 4, "restart", 1, "fleetPlan", 1, "register", 3, "reconcile", 2, "asgEdit", 2, "drainAndForce", 2, "clearPods", 2, "zeroOut", 1, "idleBlip", 2, "refreshFails", 3, "resizeThenDescribeFails", 3, "untaintFailsThenBusy", 3)}
 	col := newCollector(t, "C02", "history check; non-trivial = a scan inside a cool-down window for which the unlocked decision would have been an action, or a scan within 1s of the end of a cool-down; distinct by (offset class, would-be action, fleet)")
 	historyCheck(t, &historyOpts{prop: "C02", profile: p, col: col, classify: func(w *world.World, rec *world.ScanRecord) []string {
 		var keys []string
@@ -196,7 +196,7 @@ func TestC04(t *testing.T) {
 
 func TestC05History(t *testing.T) {
 	p := &world.Profile{Name: "scaleup", FaultFocus: "node-writes", MinGroups: 1, MaxGroups: 1, Fleet: 1, Auto: 1, MaxInit: 10, SmallGraces: true, Steps: 20,
-		Weights: with(baseWeights(), "targetUtil", 14, "taintExt", 5, "cordon", 1, "restart", 2, "fleetPlan", 1, "drainAndForce", 1, "killNode", 2, "storm", 2, "asgEdit", 2, "zeroOut", 2, "sizeSeenOutOfBounds", 2, "gracefulDelete", 3, "refreshFails", 3, "replacePod", 3, "replaceBetweenScans", 3, "sizeChangesThenZero", 3, "fault", 3, "raceOnWrite", 2, "cordonedTaintedThenBusy", 3)}
+		Weights: with(baseWeights(), "targetUtil", 14, "taintExt", 5, "cordon", 1, "restart", 2, "fleetPlan", 1, "drainAndForce", 1, "killNode", 2, "storm", 2, "asgEdit", 2, "zeroOut", 2, "sizeSeenOutOfBounds", 2, "gracefulDelete", 3, "refreshFails", 3, "replacePod", 3, "replaceBetweenScans", 3, "sizeChangesThenZero", 3, "fault", 3, "raceOnWrite", 2, "cordonedTaintedThenBusy", 3, "staleWindow", 3)}
 	col := newCollector(t, "C05", "end-to-end: scans in the scale-up band with equal-size nodes; nodes brought into service = untaints + (requested target - real desired); non-trivial = strict scale-up band with need >= 1; distinct by (need, reused, requested, clamped, bound resource)")
 	historyCheck(t, &historyOpts{prop: "C05", profile: p, col: col, classify: func(w *world.World, rec *world.ScanRecord) []string {
 		var keys []string
@@ -216,7 +216,7 @@ func TestC05History(t *testing.T) {
 func TestC06(t *testing.T) {
 	p := &world.Profile{Name: "bands", MinGroups: 1, MaxGroups: 2, Fleet: 1, Auto: 1, Default: 1, Starve: 1, MaxAge: 1, MaxInit: 10, SmallGraces: true, Steps: 25,
 		FaultFocus: "cloud",
-		Weights:    with(baseWeights(), "targetUtil", 16, "scan", 12, "taintExt", 2, "cordon", 1, "restart", 1, "schedule", 3, "asgEdit", 2, "fault", 2, "fleetPlan", 1, "resizeNode", 2, "launch", 3, "starveAfterScaleUp", 2, "latency", 2, "gracefulDelete", 2, "unevenStarve", 4, "oldestWriteFails", 3)}
+		Weights:    with(baseWeights(), "targetUtil", 16, "scan", 12, "taintExt", 2, "cordon", 1, "restart", 1, "schedule", 3, "asgEdit", 2, "fault", 2, "fleetPlan", 1, "resizeNode", 2, "launch", 3, "starveAfterScaleUp", 2, "latency", 2, "gracefulDelete", 2, "unevenStarve", 4, "oldestWriteFails", 3, "goneUntaintedThenIdle", 3)}
 	col := newCollector(t, "C06", "history check; every unlocked, in-bounds, fault-free scan is judged against the exact-rational band; non-trivial = band with a non-empty expected action or an edge class; distinct by (band set, edge, clamp binds, tainted present, trigger)")
 	historyCheck(t, &historyOpts{prop: "C06", profile: p, col: col, classify: func(w *world.World, rec *world.ScanRecord) []string {
 		var keys []string
@@ -476,8 +476,8 @@ func TestC11(t *testing.T) {
 // ---------------------------------------------------------------- C12
 
 func TestC12(t *testing.T) {
-	p := &world.Profile{Name: "isolation", Linger: true, MinGroups: 2, MaxGroups: 3, Dry: 1, Fleet: 3, Auto: 1, Default: 1, MaxInit: 6, SmallGraces: true, Steps: 30,
-		Weights: with(baseWeights(), "targetUtil", 12, "taintExt", 4, "fault", 2, "advance", 6, "addPods", 6, "drainAndForce", 1, "noProvNode", 2, "asgEdit", 2, "neighbourFails", 3, "replaceAndReap", 2, "leftoverNode", 3, "fleetFailsEverywhere", 2, "refreshFails", 1)}
+	p := &world.Profile{Name: "isolation", Linger: true, MinGroups: 2, MaxGroups: 3, Dry: 1, Fleet: 3, Auto: 1, Default: 1, MaxAge: 1, MaxInit: 6, SmallGraces: true, Steps: 30,
+		Weights: with(baseWeights(), "targetUtil", 12, "taintExt", 4, "fault", 2, "advance", 6, "addPods", 6, "drainAndForce", 1, "noProvNode", 2, "asgEdit", 2, "neighbourFails", 3, "replaceAndReap", 2, "leftoverNode", 3, "fleetFailsEverywhere", 2, "refreshFails", 1, "pinAsg", 2, "parkedAsg", 2, "zeroOut", 1, "idleBlip", 1, "rebuildThenReapNewNode", 2)}
 	col := newCollector(t, "C12", "history check with 2-3 groups; non-trivial = a scan in which at least two groups act, or one group fails non-fatally before another is processed; distinct by (acting groups, failing group position, default group present)")
 	historyCheck(t, &historyOpts{prop: "C12", profile: p, col: col, classify: func(w *world.World, rec *world.ScanRecord) []string {
 		acting, failedBefore := 0, false
@@ -556,7 +556,7 @@ func TestC15History(t *testing.T) {
 
 func TestC19History(t *testing.T) {
 	p := &world.Profile{Name: "removal", Linger: true, BulkWhat: []string{"taint+drain", "force+drain", "taint"}, MinGroups: 1, MaxGroups: 2, Auto: 1, MaxInit: 8, SmallGraces: true, Steps: 30, Stale: true,
-		Weights: with(baseWeights(), "taintExt", 8, "advance", 9, "detach", 3, "fault", 3, "clearNode", 3, "asgEdit", 2, "asgDesired", 2, "gcNodes", 1, "drainAndForce", 2, "storm", 2, "forceBusy", 1, "staleWindow", 3, "leftoverNode", 2, "replaceAndReap", 2)}
+		Weights: with(baseWeights(), "taintExt", 8, "advance", 9, "detach", 3, "fault", 3, "clearNode", 3, "asgEdit", 2, "asgDesired", 2, "gcNodes", 1, "drainAndForce", 2, "storm", 2, "forceBusy", 1, "staleWindow", 3, "leftoverNode", 2, "replaceAndReap", 2, "rebuildThenReapNewNode", 3)}
 	col := newCollector(t, "C19", "history half: ordering of cloud terminations and node deletions; non-trivial = a removal batch of >= 2 with a failure or foreign node inside it, two batches in one scan, a not-in-group exit, or an ASG-minimum refusal; distinct by those flags and sizes")
 	historyCheck(t, &historyOpts{prop: "C19", profile: p, col: col, classify: func(w *world.World, rec *world.ScanRecord) []string {
 		var keys []string
@@ -743,6 +743,8 @@ func TestC10Big(t *testing.T)        { TestC10(t) }
 func TestC19HistoryBig(t *testing.T) { TestC19History(t) }
 func TestC12Big(t *testing.T)        { TestC12(t) }
 func TestC05HistoryBig(t *testing.T) { TestC05History(t) }
+func TestC06Big(t *testing.T)        { TestC06(t) }
+func TestC13HistoryBig(t *testing.T) { TestC13History(t) }
 
 // ---------------------------------------------------------------- C17 (history half)
 
